@@ -73,8 +73,7 @@ def entry_options(ctx):
             if invalid:
                 s.nontrivial.add((ex, rex, eex, reex, xx, inside))
             if not ex and not rex:
-                s.count("neither-exclusion-option (unspecified)")
-                continue        # exclusions=() without regex_exclusions: not a documented configuration
+                s.count("neither-exclusion-option")      # exclusions=() without regex_exclusions: nothing is excluded (F-C08a)
             if invalid and not got.startswith("ERR"):
                 ctx.violations.append({"kind": "property-violation", "what": "invalid option combination of get_evaluable_architecture returns an architecture",
                                        "options": kw, "module_path_inside_root": bool(inside), "impl": got})
